@@ -50,6 +50,36 @@ def check(run):
         sc2 = cc.Scenario(S, {"rct": t}).start()
         sc2.ops.append("read_card"); sc2.expect_write(S.read_card_req(t)); sc2.exp_results.append("Err:Zvt:IncompleteData")
         scs.append(sc2); meta.append(("rct-budget", h, t, 0))
+    # (3) other configuration extremes: terminal id (equal to / different from the terminal's, empty => "00000000", not a number),
+    #     maximum 0, amount 0 / 10^12 - 1, currency 0 / 999, password 0 / 999999 — with a healthy terminal and with one that
+    #     falls silent in the middle of configure(); model = implementation, every call returns
+    for cfg in ({"tid": "52523535"}, {"tid": "00000001"}, {"tid": ""}, {"tid": "12AB5678"}, {"tid": "99999999"}, {"max": 0}, {"amount": 0},
+                {"amount": 10 ** 12 - 1}, {"cur": 0}, {"cur": 999}, {"pw": 0}, {"pw": 999999}, {"rct": 0, "max": 3}):
+        for stall in (None, 1, 3):
+            sc = cc.Scenario(S, cfg).start()
+            c = sc.cfg
+            tid_cfg = c["tid"] or "00000000"
+            term_tid = "52523535"
+            # configure(): system info; set terminal id when they differ (and the configured one is a number); initialisation; clean-up
+            sc.ops.append("configure")
+            steps = [(S.sysinfo_req(), [S.sysinfo(c["serial"], term_tid)])]
+            numeric = tid_cfg.isdigit()
+            if tid_cfg != term_tid and numeric:
+                steps.append((S.set_terminal_id(c["pw"], int(tid_cfg)), [S.completion()]))
+            if tid_cfg == term_tid or numeric:
+                steps.append((S.initialization(c["pw"]), [S.intermediate(), S.completion()]))
+                steps.append((S.pending_query(), [S.pr_abort(0xb8, 0xFFFF)]))
+                steps.append((S.end_of_day(c["pw"]), [S.completion()]))
+            for n, (req, reps) in enumerate(steps):
+                if stall is not None and n == stall:
+                    sc.expect_write(req); sc.new_conn(end_prev="S"); sc.handshake()
+                sc.exchange(req, reps)
+            sc.exp_results = [None]
+            sc.ops.append("read_card")
+            sc.exchange(S.read_card_req(c["rct"]), [S.status_info({0x27: 0, 0x06: {"uuid": "04a1b2c3"}})])
+            sc.exp_results.append(None)
+            sc.exp_writes = []
+            scs.append(sc); meta.append(("config", cc.History(S, cfg), 0, 0))
     cases, mo, io = run_scenarios(run, scs, "c10")
     diffs = []
     for (kind, h, a, b), sc, c, m, i in zip(meta, scs, cases, mo, io):
